@@ -1,6 +1,7 @@
 import MosnVerif.Drive.Util
 import MosnVerif.Model.PoolSpec
 import MosnVerif.Model.StreamOnce
+import MosnVerif.Model.PoolMux
 namespace MosnVerif.Drive.C09
 open MosnVerif.Drive MosnVerif.Model.Pool
 
@@ -145,8 +146,90 @@ def once (threads sched : String) (impl : List String) : String :=
 
 end Once
 
+/-! ### kind `mux`: the multiplex pool -/
+namespace Mux
+open MosnVerif.Model
+
+def parseOp (t : String) : Option PoolMux.Op :=
+  if t == "IA" then some (.checkAndInit none .ok)
+  else if t == "S" then some .shutdown else if t == "Z" then some .closeAll
+  else if t == "E+" then some .extInc else if t == "E-" then some .extDec
+  else if t.startsWith "IF" then (numAfter t 2).map (fun n => .checkAndInit (some n) .refused)
+  else if t.startsWith "IT" then (numAfter t 2).map (fun n => .checkAndInit (some n) .timeout)
+  else if t.startsWith "I" then (numAfter t 1).map (fun n => .checkAndInit (some n) .ok)
+  else if t.startsWith "N" then (numAfter t 1).map .newStream
+  else if t.startsWith "R" then (numAfter t 1).map .response
+  else if t.startsWith "X" then (numAfter t 1).map .garbage
+  else if t.startsWith "L" then (numAfter t 1).map .localReset
+  else if t.startsWith "G" then (numAfter t 1).map .goAway
+  else if t.startsWith "CR" then (numAfter t 2).map (fun n => .connClose n true)
+  else if t.startsWith "CL" then (numAfter t 2).map (fun n => .connClose n false)
+  else none
+
+def parseSlot (t : String) : Option PoolMux.OSlot :=
+  if t == "-" then some ⟨false, false, none⟩ else
+  match t.toList with
+  | l :: rest =>
+    let r := String.ofList rest
+    if r == "f" then some ⟨true, l == 'C', none⟩ else r.toNat?.map (fun c => ⟨true, l == 'C', some c⟩)
+  | [] => none
+
+/-- `res;b<slots>;d<shutdown>;q<cur>;n<conns>;s<streams>` -/
+def parseObs (t : String) : Option (String × PoolMux.Obs) :=
+  match t.splitOn ";" with
+  | [res, bb, dd, qq, nn, ss] =>
+    if !(bb.startsWith "b" && dd.startsWith "d" && qq.startsWith "q" && nn.startsWith "n" && ss.startsWith "s") then none else
+    let slotToks := ((bb.drop 1).toString.splitOn ",").filter (· ≠ "")
+    let strToks := ((ss.drop 1).toString.splitOn ",").filter (· ≠ "")
+    let conns := (nn.drop 1).toString.toList
+    if conns.any (fun ch => ch != 'o' && ch != 'c') then none else
+    match parseInt? (qq.drop 1).toString, slotToks.mapM parseSlot, strToks.mapM parseStream with
+    | some q, some slots, some streams =>
+      some (res, { slots := slots, reqCur := q, conns := conns.map (· == 'o'), streams := streams })
+    | _, _, _ => none
+  | _ => none
+
+def okConn (res : String) : Option Nat := if res.startsWith "ok" then (res.drop 2).toString.toNat? else none
+
+def specAlong (maxReq : Nat) : Nat → PoolMux.Obs → List PoolMux.Op → List String → Bool
+  | _, _, [], _ => true
+  | _, _, _ :: _, [] => true
+  | ext, before, op :: ops, t :: ts =>
+    match parseObs t with
+    | none => false
+    | some (res, o) =>
+      let ext' := match op with | .extInc => ext + 1 | .extDec => ext - 1 | _ => ext
+      let n := o.slots.length
+      let stepOk := match op with
+        | .newStream k => (res.startsWith "ok" || res == "ovf" || res == "cf") &&
+            PoolMux.newStreamSpec maxReq ext (if n > 1 then k else 0) before (okConn res) o
+        | .checkAndInit slot _ => (res == "t" || res == "f") && (res != "t" || o == before) &&
+            (match slot with
+              | some k => match before.slots[if n > 1 then k else 0]? with
+                | some sl => (res == "t") == (sl.present && sl.connected)
+                | none => res == "f"
+              | none => true)
+        | _ => res == "-"
+      stepOk && PoolMux.obsSpec maxReq ext' o && specAlong maxReq ext' o ops ts
+
+def emptyObs (n : Nat) : PoolMux.Obs := { slots := List.replicate n ⟨false, false, none⟩, reqCur := 0, conns := [], streams := [] }
+
+def mux (mc mr ops : String) (impl : List String) : String :=
+  match mc.toNat?, mr.toNat?, (ops.splitOn ",").mapM parseOp with
+  | some maxConn, some maxReq, some opl =>
+    let s0 := PoolMux.init maxConn maxReq
+    let tr := PoolMux.trace s0 opl
+    let modelToks := tr.map (fun (r, s) => PoolMux.render r s)
+    let agree := impl == modelToks
+    let spec := impl.length == opl.length && specAlong maxReq 0 (emptyObs s0.nSlots) opl impl
+    s!"{if agree then "A" else "D"} {if spec then "S" else "V"} {joinWith " " modelToks}"
+  | _, _, _ => "E E bad-case"
+
+end Mux
+
 def run (caseToks impl : List String) : String :=
   match caseToks with
+  | ["mux", mc, mr, ops] => Mux.mux mc mr ops impl
   | ["once", threads, sched] => once threads sched impl
   | ["pool", kind, mc, mr, ops] => pool kind mc mr ops impl
   | ["conc", _, _, mr, _, _, _] => conc mr impl
